@@ -46,4 +46,8 @@ PROPS = {
         "level": "exploration", "quick_s": 40, "thorough_s": 900, "thorough_seeds": 4,
         "rule": "C01 programs in which blocks are wrapped in 1..3 levels of embedded sub-process (also inside parallel and inclusive branches, and - known-finding stratum - inside loops); each run executes the wrapped program and its inlined twin generated from the same draws, under the same answer plan; oracle = token game on the wrapped run (sub-process boundaries transparent) + differential comparison with the twin; distinct = schedule hash; non-trivial = at least one wrapper and a context switch",
     },
+    "C02": {
+        "level": "exploration", "quick_s": 35, "thorough_s": 900, "thorough_seeds": 4,
+        "rule": "processes with 1..3 start events (separate ends / exclusive merge / parallel join of the start branches), started by StartAll, by sequential StartWith or by concurrent StartWith goroutines, sometimes only a subset; 1..3 WaitUntilComplete clients, each optionally delayed, with a deadline that expires (then waiting again) and with repeated calls; answers optionally delayed in simulated time so that deadlines expire mid-flight; oracle: token game + per-call return/outcome stamps + position of CeaseFlowTrace; distinct = schedule hash; non-trivial = >1 start event or >1 waiter and a context switch",
+    },
 }
